@@ -13,11 +13,10 @@ RUNNER = "tdgl.solver.runner"
 SOLVER = "tdgl.solver.solver"
 DATA = "tdgl.solution.data"
 SOLN = "tdgl.solution.solution"
-TECH = ("typestate analysis on the statement CFG of Runner._run_stage (product-graph search with witness paths), "
-        "sibling agreement of per-step record writers/declarations, abstract shape domain {1, many} for the record "
-        "buffers writer vs reader, prefix-sum (inclusive/exclusive) typing of reported times; helpers that are new relative to the "
-        "frozen list are read at their call sites, events are recognised by what they do (store of the label, call of the update, "
-        "call of the frame writer), not by statement shape")
+TECH = ("predicates on the traces of the simulation loop: Runner._run_stage / Runner.run followed statement by statement over a finite abstract domain "
+        "(97 scenarios incl. interrupts with cancel / pause / resume) with a model update function and frame writer; per-step records compared "
+        "between the traces of update() and what Runner(...) receives; abstract shape domain {1, many} for the record buffers writer vs reader; "
+        "prefix-sum (inclusive/exclusive) typing of reported times")
 
 
 # ---------------------------------------------------------------------------
